@@ -89,6 +89,28 @@ type Case struct {
 	// SetValue(name, values...) calls made on the object of handle H after a successful Parse, before the
 	// option values are read (and before Dispatch)
 	SetVals []SetVal `json:"setvals,omitempty"`
+	// GetRequiredArg / GetRequiredArgInt / GetRequiredArgFloat64 calls made on the object of handle H after a
+	// successful Parse (after the SetValue calls): the first is handed `remaining`, each later one the list the
+	// previous call returned
+	ReqArgs []ReqArg `json:"reqargs,omitempty"`
+}
+
+type ReqArg struct {
+	H    int   `json:"h"`
+	Kind int   `json:"kind"`           // 0 string, 1 int, 2 float64
+	Secs []int `json:"secs,omitempty"` // help sections handed over (none: the synopsis)
+}
+
+func (ra ReqArg) line() string {
+	secs := "-"
+	if len(ra.Secs) > 0 {
+		ws := make([]string, len(ra.Secs))
+		for i, x := range ra.Secs {
+			ws[i] = strconv.Itoa(x)
+		}
+		secs = strings.Join(ws, ",")
+	}
+	return fmt.Sprintf("reqarg %d %d %s", ra.H, ra.Kind, secs)
 }
 
 type SetVal struct {
@@ -350,6 +372,9 @@ func (c *Case) lines() []string {
 		for _, sv := range c.SetVals {
 			out = append(out, fmt.Sprintf("setvalue %d %s %s", sv.H, hx(sv.Name), hxList(sv.Vals)))
 		}
+		for _, ra := range c.ReqArgs {
+			out = append(out, ra.line())
+		}
 		if c.Dispatch {
 			out = append(out, "dispatch")
 		}
@@ -370,7 +395,7 @@ func (c *Case) answers() int {
 	if c.Comp {
 		return 1
 	}
-	n := 1 + len(c.SetVals)
+	n := 1 + len(c.SetVals) + len(c.ReqArgs)
 	if c.Dispatch {
 		n++
 	}
